@@ -397,6 +397,25 @@ let pool_mode path =
    with End_of_file -> ());
   close_in ic
 
+(* -unq FILE: lines of hex raw literal tokens; prints "rawhex|valuehex" per the model of the literal reader, or "rawhex|none" *)
+let unq_mode path =
+  let ic = open_in path in
+  let rec runes (b : n list) = match b with [] -> [] | _ ->
+    let (r, w) = decode b in
+    let w = max 1 (int_of_nat w) in
+    let rec drop k l = if k = 0 then l else match l with [] -> [] | _ :: t -> drop (k - 1) t in
+    r :: runes (drop w b) in
+  (try
+     while true do
+       let line = input_line ic in
+       let raw = runes (bytes_of_str (unhex ("x" ^ line))) in
+       (match unquote raw with
+        | Some v -> Printf.printf "%s|%s\n" line (hex_of_bytes v)
+        | None -> Printf.printf "%s|none\n" line)
+     done
+   with End_of_file -> ());
+  close_in ic
+
 (* -exit FILE: lines of 12 bits (flags_ok help one_arg input_ok parse_ok entry_ok nobuild output_ok build_ok
    format_ok write_ok close_ok); prints the exit status the model of main.go assigns *)
 let exit_mode path =
@@ -506,12 +525,13 @@ let bl_mode path =
   close_in ic
 
 let () =
-  let tables = ref "" and cases = ref "" and fuel = ref 4000 and dec = ref "" and bl = ref "" and prep = ref "" and cls = ref "" and emb = ref "" and var = ref "staticCode" and poolf = ref "" and exitf = ref "" in
+  let tables = ref "" and cases = ref "" and fuel = ref 4000 and dec = ref "" and bl = ref "" and prep = ref "" and cls = ref "" and emb = ref "" and var = ref "staticCode" and poolf = ref "" and exitf = ref "" and unqf = ref "" in
   Arg.parse [ ("-tables", Arg.Set_string tables, "unicode tables file");
               ("-cases", Arg.Set_string cases, "case file");
               ("-pq", Arg.String set_pq, "analysis quirks, 2 bits: nullable_inner pred_first (default 01 = current tree: nullable_inner repaired by fix 46465c9)");
               ("-prep", Arg.Set_string prep, "file of grammars: PrepareGrammar model over all iteration orders + LRSpec");
               ("-cls", Arg.Set_string cls, "file of hex class texts: the model of ast.CharClassMatcher.parse under both escape settings");
+              ("-unq", Arg.Set_string unqf, "file of hex raw literal tokens: the model of the literal reader (strconv.Unquote)");
               ("-exit", Arg.Set_string exitf, "file of stage outcomes: exit status per the model of main.go");
               ("-pool", Arg.Set_string poolf, "file of state-store steps: replay on the Pool model and print the views");
               ("-embed", Arg.Set_string emb, "source file: print the file static_code_generator writes for it (model)");
@@ -528,6 +548,7 @@ let () =
   if !emb <> "" then (embed_mode !emb !var; exit 0);
   if !poolf <> "" then (pool_mode !poolf; exit 0);
   if !exitf <> "" then (exit_mode !exitf; exit 0);
+  if !unqf <> "" then (unq_mode !unqf; exit 0);
   if !tables <> "" then load_tables !tables;
   if !bl <> "" then (bl_mode !bl; exit 0);
   if !prep <> "" then (Random.init 7; prep_mode !prep; exit 0);
